@@ -51,9 +51,10 @@ type PaymentService struct {
 	// WithdrawMin (optional) is the minimum amount required to allow a withdraw.
 	WithdrawMin *big.Int
 
-	// withdrawMu serializes withdrawals, so that two requests for the same
-	// wallet cannot both settle the same balance.
-	withdrawMu sync.Mutex
+	// mu serializes the signed requests (from their nonce check on), so that
+	// two withdrawals cannot both settle the same balance and the effects of a
+	// wallet's requests take place in the order their nonces were accepted.
+	mu sync.Mutex
 }
 
 func (p *PaymentService) verify(sig string, method string, wallet string, nonce int64, args ...interface{}) error {
@@ -97,6 +98,9 @@ func (p *PaymentService) Account(ctx context.Context, wallet string) (*AccountRe
 
 // AddNode authorizes a nodeID to be spent by a wallet account.
 func (p *PaymentService) AddNode(ctx context.Context, sig string, wallet string, nonce int64, nodeID string) error {
+	p.mu.Lock()
+	defer p.mu.Unlock()
+
 	if err := p.verify(sig, "pool_addNode", wallet, nonce, nodeID); err != nil {
 		return err
 	}
@@ -106,6 +110,9 @@ func (p *PaymentService) AddNode(ctx context.Context, sig string, wallet string,
 
 // Withdraw schedules a balance withdraw for an account
 func (p *PaymentService) Withdraw(ctx context.Context, sig string, wallet string, nonce int64) error {
+	p.mu.Lock()
+	defer p.mu.Unlock()
+
 	if err := p.verify(sig, "pool_withdraw", wallet, nonce); err != nil {
 		return err
 	}
@@ -113,9 +120,6 @@ func (p *PaymentService) Withdraw(ctx context.Context, sig string, wallet string
 	if p.Settle == nil {
 		return ErrWithdrawDisabled
 	}
-
-	p.withdrawMu.Lock()
-	defer p.withdrawMu.Unlock()
 
 	account := store.Account(wallet)
 	balance, err := p.BalanceStore.GetAccountBalance(account)
